@@ -23,6 +23,10 @@ Combos1 == {
   Cfg(<<"spot", "log_spot", "expiry_time">>, "linear", << <<1, -3, 2>> >>, <<0>>, <<1>>, TRUE),
   Cfg(<<"zeros", "ones", "underlier_spot">>, "linear", << <<5, 3, -1>> >>, <<0>>, <<2>>, TRUE)
 }
+\* configurations whose derivative carries a clause (payoff -> 2 * payoff + 1)
+WithClause(c) == c @@ [clause |-> "double_plus_one"]
+Clause1 == { WithClause(Cfg(<<"moneyness", "time_to_maturity", "volatility">>, "linear", << <<1, 2, -1>> >>, <<1>>, <<1>>, TRUE)),
+             WithClause(Cfg(<<"moneyness", "prev_hedge">>, "relu", << <<2, -1>> >>, <<0>>, <<2>>, FALSE)) }
 Long1 == {
   Cfg(<<"moneyness", "time_to_maturity", "volatility", "prev_hedge">>, "linear", << <<1, 2, -1, 1>> >>, <<0>>, <<1>>, TRUE),
   Cfg(<<"max_moneyness", "barrier_up_3", "barrier_dn_2", "max_log_moneyness">>, "linear", << <<2, 3, -1, 1>> >>, <<0>>, <<1>>, TRUE),
@@ -30,7 +34,8 @@ Long1 == {
   Cfg(<<"module_prev", "variance", "volatility">>, "relu", << <<1, -1, 2>> >>, <<-1>>, <<2>>, TRUE),
   Cfg(<<"log_moneyness", "underlier_log_spot", "log_spot", "spot">>, "linear", << <<1, 2, -1, 1>> >>, <<0>>, <<0>>, TRUE)
 }
-AllH1 == Singles1 \cup Combos1
+Combos1c == Combos1 \cup Clause1
+AllH1 == Singles1 \cup Combos1 \cup Clause1
 \* H = 2 -------------------------------------------------------------------
 Combos2 == {
   Cfg(<<"moneyness", "variance">>, "linear", << <<1, 2>>, <<-1, 1>> >>, <<0, 1>>, <<1, 2>>, TRUE),
